@@ -32,6 +32,30 @@ def configs(tier):
     return ["A", "F"] if tier == "quick" else ["A", "F", "N", "FN"]
 
 
+HANDOVER_OK = ("std::mem::", "core::mem::", "std::ptr::", "core::ptr::", "std::clone::Clone::", "std::default::Default::", "std::fmt::", "std::option::Option",
+               "std::result::Result", "std::ops::Deref", "std::ops::DerefMut", "std::borrow::", "std::convert::AsRef", "std::convert::AsMut", "std::boxed::Box",
+               "std::sync::", "std::cell::", "std::rc::", "std::marker::", "std::ops::Drop", "std::cmp::PartialEq", "serde::")
+
+
+def hash_container_handed_over(b, t):
+    c = t["callee"]
+    p = c.get("path", "") or ""
+    st = c.get("self_ty") or ""
+    if c.get("crate") == "specs" or not p or any(h in st for h in HASH_TYPES) or p.startswith(HANDOVER_OK) or any(h in p for h in HASH_TYPES):
+        return False
+    for a in t.get("args", []):
+        if not isinstance(a, dict):
+            continue
+        pl = a.get("move") or a.get("copy")
+        if not pl or pl.get("proj"):
+            continue
+        ty = (b.ltype.get(pl["local"]) or "").lstrip("&").replace("mut ", "", 1).strip()
+        if ty.startswith(("std::collections::HashMap<", "std::collections::HashSet<", "std::collections::hash_map::", "std::collections::hash_set::",
+                          "ahash::AHashMap<", "ahash::AHashSet<", "hashbrown::")):
+            return True
+    return False
+
+
 def scan(facts, is_fixture=False):
     """list of (category, body, where, detail)"""
     out = []
@@ -46,6 +70,10 @@ def scan(facts, is_fixture=False):
                 if nm == "retain" and pure_closure_arg(facts, b, bb, t):
                     continue
                 out.append(("hash-order iteration", b, b.loc(bb), "%s on %s" % (p, st)))
+            elif hash_container_handed_over(b, t):
+                # a hash container given to generic foreign code as an argument (Vec::extend(set), from_iter(map), zip(set) ..): the callee can
+                # only consume it by iterating it - in hash order (seed C20-g2: freed indices pass through a HashSet on their way to the free list)
+                out.append(("hash-order iteration", b, b.loc(bb), "%s is handed a hash container" % p))
             elif nm in ("addr", "expose_provenance", "expose_addr") and ("ptr::" in p or "*const" in st or "*mut" in st):
                 out.append(("address exposure", b, b.loc(bb), p))
             elif p.endswith("fmt::Pointer::fmt") or "new_pointer" in p:
@@ -98,7 +126,7 @@ def run(ctx):
     fx = Facts(extract.fixture_facts("positive"))
     hits = scan(fx, True)
     cats = {h[0] for h in hits}
-    need = {"hash-order iteration": 4, "address exposure": 3, "time": 2, "randomness": 1, "thread/env/process identity": 3, "mutable static": 2}
+    need = {"hash-order iteration": 5, "address exposure": 3, "time": 2, "randomness": 1, "thread/env/process identity": 3, "mutable static": 2}
     for cat, n in need.items():
         got = sum(1 for h in hits if h[0] == cat)
         ctx.ob("C20-R0", "matcher '%s' fires on the fixture" % cat, got >= n, "fixtures/positive/src/lib.rs", "" if got >= n else "only %d of %d expected matches: the matcher is dead" % (got, n),
